@@ -70,7 +70,7 @@ def link_roots_to_nearest_(
     The first root are reserved, and the others was.
     """
     names = get_names(names)
-    dsu = get_dsu(df)
+    dsu = get_dsu(df, names=names)
     roots = df[df[names.pid] == -1].iterrows()
     next(roots)  # type: ignore # skip the first one
     for i, row in roots:
